@@ -1,6 +1,8 @@
 //! protox — bounded-exhaustive exploration of the sans-IO crate `wtransport-proto`.
 mod adapt;
 mod c14;
+mod c15;
+mod subjects;
 mod util;
 
 #[global_allocator]
@@ -14,6 +16,7 @@ fn main() {
         let sc = &v["scenario"];
         let res = match args.prop.as_str() {
             "C14" => c14::replay(sc),
+            "C15" => c15::replay(sc),
             p => vx::machinery(&format!("protox: no replay for {p}")),
         };
         match res {
@@ -30,6 +33,7 @@ fn main() {
     }
     let code = match args.prop.as_str() {
         "C14" => c14::run(&args),
+        "C15" => c15::run(&args),
         p => vx::machinery(&format!("protox does not serve {p}")),
     };
     std::process::exit(code)
